@@ -16,6 +16,20 @@ structure RuleOK (cfg : KCfg) (r : ARule) : Prop where
   /-- the mark is not set by `--set-mark` and a convertible `--set-xmark` at once -/
   markOnce : xConv (pairsOf (userOpts r) []) = none ∨ getA kMark (pairsOf (userOpts r) []) = none
 
+def mOKb (cfg : KCfg) (r : ARule) : AOpt → Bool
+  | .mExplicit n => decide (n = s "state" ∨ some (lower n) = protoOf cfg r)
+  | _ => true
+
+instance (cfg : KCfg) (r : ARule) : Decidable (RuleOK cfg r) :=
+  decidable_of_iff ((∀ a ∈ r, a.wf = true) ∧ ((userOpts r).map fun o => (pkv o).1).Nodup ∧
+      ((kernelOpts cfg r).map fun o => (pkv o).1).Nodup ∧ (∀ a ∈ r, mOKb cfg r a = true) ∧
+      (xConv (pairsOf (userOpts r) []) = none ∨ getA kMark (pairsOf (userOpts r) []) = none))
+    ⟨fun ⟨h1, h2, h3, h4, h5⟩ => ⟨h1, h2, h3, fun n hn => by simpa [mOKb] using h4 _ hn, h5⟩,
+     fun h => ⟨h.wf, h.nodupU, h.nodupK, fun a ha => by
+       cases a with
+       | mExplicit n => simpa [mOKb] using h.mOK n ha
+       | _ => rfl, h.markOnce⟩⟩
+
 /-! ### which option makes which key -/
 
 theorem key_of_plain (n : Neg) (k : Str) (args : List Str) (h : k ≠ s "--tcp-flags") :
@@ -128,5 +142,190 @@ theorem proto_not_state (cfg : KCfg) (n : Neg) (P : Proto) (u num : Bool) (hwf :
   | icmp => obtain ⟨names⟩ := cfg; cases n <;> cases u <;> cases num <;> cases names <;> decide
   | vrrp => obtain ⟨names⟩ := cfg; cases n <;> cases u <;> cases num <;> cases names <;> decide
   | ipv6icmp => obtain ⟨names⟩ := cfg; cases n <;> cases u <;> cases num <;> cases names <;> decide
+
+theorem equalFold_self (a : Str) : equalFold a a = true := by simp [equalFold]
+
+/-- A protocol whose kernel name is the (lower case) name of an explicit match is spelled by the
+user with that name in some case. -/
+theorem pm_fold (cfg : KCfg) (P : Proto) (u num : Bool) (c : Str)
+    (hc : c = s "state" ∨ c = s "tcp" ∨ c = s "udp" ∨ c = s "icmp")
+    (hwf : (AOpt.proto .no P u num).wf = true) (hk : P.kname cfg.protoNames = c) :
+    lower (P.uname u num) = c := by
+  cases P with
+  | num d =>
+    simp only [AOpt.wf, Bool.and_eq_true] at hwf
+    have : d = c := hk
+    subst this
+    exfalso
+    rcases hc with e | e | e | e <;> rw [e] at hwf <;> exact absurd hwf.1 (by decide)
+  | tcp => obtain ⟨names⟩ := cfg; revert hk hwf; rcases hc with e | e | e | e <;> subst e <;> cases u <;> cases num <;> cases names <;> decide
+  | udp => obtain ⟨names⟩ := cfg; revert hk hwf; rcases hc with e | e | e | e <;> subst e <;> cases u <;> cases num <;> cases names <;> decide
+  | icmp => obtain ⟨names⟩ := cfg; revert hk hwf; rcases hc with e | e | e | e <;> subst e <;> cases u <;> cases num <;> cases names <;> decide
+  | vrrp => obtain ⟨names⟩ := cfg; revert hk hwf; rcases hc with e | e | e | e <;> subst e <;> cases u <;> cases num <;> cases names <;> decide
+  | ipv6icmp => obtain ⟨names⟩ := cfg; revert hk hwf; rcases hc with e | e | e | e <;> subst e <;> cases u <;> cases num <;> cases names <;> decide
+
+theorem mname_cases {n : Str} (h : (AOpt.mExplicit n).wf = true) :
+    lower n = s "state" ∨ lower n = s "tcp" ∨ lower n = s "udp" ∨ lower n = s "icmp" := by
+  simp only [AOpt.wf, Bool.or_eq_true, decide_eq_true_eq] at h
+  rcases h with ((h | h) | h) | h
+  · left; subst h; decide
+  · right; left; exact h
+  · right; right; left; exact h
+  · right; right; right; exact h
+
+/-- The rule-level round trip. -/
+theorem rule_roundtrip (cfg : KCfg) (r : ARule) (H : RuleOK cfg r) :
+    PairsEq (normalize (pairsOf (kernelOpts cfg r) [])) (normalize (pairsOf (userOpts r) [])) := by
+  -- lookups in the two parsed maps
+  have LU : ∀ k v, getA k (pairsOf (userOpts r) []) = some v ↔ ∃ a ∈ r, pkv a.user = (k, v) := by
+    intro k v
+    rw [getA_pairsOf_iff _ H.nodupU]
+    simp only [userOpts, List.mem_map]
+    constructor
+    · rintro ⟨o, ⟨a, ha, e⟩, h⟩; exact ⟨a, ha, e ▸ h⟩
+    · rintro ⟨a, ha, h⟩; exact ⟨a.user, ⟨a, ha, rfl⟩, h⟩
+  have LK : ∀ k v, getA k (pairsOf (kernelOpts cfg r) []) = some v ↔
+      (∃ a ∈ r, isPM (protoOf cfg r) a = false ∧ pkv (a.kernel cfg) = (k, v)) ∨
+      (∃ p, protoOf cfg r = some p ∧ r.any (inPG (protoOf cfg r)) = true ∧ (kM, p) = (k, v)) := by
+    intro k v
+    rw [getA_pairsOf_iff _ H.nodupK]
+    constructor
+    · rintro ⟨o, ho, h⟩
+      rcases (mem_kernelOpts cfg r o).mp ho with ⟨a, ha, hp, e⟩ | ⟨p, hp, hany, e⟩
+      · left; exact ⟨a, ha, hp, e ▸ h⟩
+      · right; refine ⟨p, hp, hany, ?_⟩
+        rw [e, pkv_plain _ _ _ (by decide), value_no, join1] at h; exact h
+    · rintro (⟨a, ha, hp, h⟩ | ⟨p, hp, hany, h⟩)
+      · exact ⟨a.kernel cfg, (mem_kernelOpts cfg r _).mpr (Or.inl ⟨a, ha, hp, rfl⟩), h⟩
+      · refine ⟨⟨.no, s "-m", [p]⟩, (mem_kernelOpts cfg r _).mpr (Or.inr ⟨p, hp, hany, rfl⟩), ?_⟩
+        rw [pkv_plain _ _ _ (by decide), value_no, join1]; exact h
+  -- the kernel never prints `--set-mark`
+  have sideK : getA kMark (pairsOf (kernelOpts cfg r) []) = none := by
+    cases hg : getA kMark (pairsOf (kernelOpts cfg r) []) with
+    | none => rfl
+    | some v =>
+      exfalso
+      rcases (LK kMark v).mp hg with ⟨a, _, _, h⟩ | ⟨p, _, _, h⟩
+      · rcases kernel_key cfg a kMark (Or.inr (Or.inr rfl)) (by rw [h]) with ⟨e, _⟩ | ⟨e, _⟩
+        · exact absurd e (by decide)
+        · exact absurd e (by decide)
+      · exact absurd (show kM = kMark from congrArg Prod.fst h) (by decide)
+  -- the value of `-p` in either map does not fold to `state`
+  have pU : equalFold (s "state") ((getA kP (pairsOf (userOpts r) [])).getD []) = false := by
+    cases hg : getA kP (pairsOf (userOpts r) []) with
+    | none => decide
+    | some v =>
+      obtain ⟨a, ha, h⟩ := (LU kP v).mp hg
+      rcases user_key a kP (Or.inr rfl) (by rw [h]) with ⟨e, _⟩ | ⟨_, n, P, u, num, e⟩
+      · exact absurd e (by decide)
+      · subst e
+        simp only [AOpt.user] at h
+        rw [pkv_plain _ _ _ (by decide), value_neg] at h
+        rw [Option.getD_some, ← (Prod.mk.inj h).2]
+        exact (proto_not_state cfg n P u num (H.wf _ ha)).1
+  have pK : equalFold (s "state") ((getA kP (pairsOf (kernelOpts cfg r) [])).getD []) = false := by
+    cases hg : getA kP (pairsOf (kernelOpts cfg r) []) with
+    | none => decide
+    | some v =>
+      rcases (LK kP v).mp hg with ⟨a, ha, _, h⟩ | ⟨p, _, _, h⟩
+      · rcases kernel_key cfg a kP (Or.inr (Or.inl rfl)) (by rw [h]) with ⟨e, _⟩ | ⟨_, n, P, u, num, e⟩
+        · exact absurd e (by decide)
+        · subst e
+          simp only [AOpt.kernel] at h
+          rw [pkv_plain _ _ _ (by decide), value_neg, b2neg_isNeg] at h
+          rw [Option.getD_some, ← (Prod.mk.inj h).2]
+          exact (proto_not_state cfg n P u num (H.wf _ ha)).2
+      · exact absurd (show kM = kP from congrArg Prod.fst h) (by decide)
+  -- (a) an explicit match naming the protocol is dropped on the user's side
+  have dropU : ∀ n, AOpt.mExplicit n ∈ r → isPM (protoOf cfg r) (.mExplicit n) = true →
+      mDrop (pairsOf (userOpts r) []) = true := by
+    intro n hn hpm
+    have hpn : protoOf cfg r = some (lower n) := by
+      simp only [isPM, beq_iff_eq] at hpm; exact hpm.symm
+    obtain ⟨P, u, num, hP, hkn⟩ := protoOf_mem cfg r _ hpn
+    have hm : getA kM (pairsOf (userOpts r) []) = some n := (LU kM n).mpr ⟨_, hn, by
+      simp only [AOpt.user]; rw [pkv_plain _ _ _ (by decide), value_no, join1]; rfl⟩
+    have hp : getA kP (pairsOf (userOpts r) []) = some (P.uname u num) := (LU kP _).mpr ⟨_, hP, by
+      simp only [AOpt.user]; rw [pkv_plain _ _ _ (by decide), value_neg]; rfl⟩
+    unfold mDrop
+    rw [hm, hp]
+    simp only [Option.getD_some, equalFold, beq_iff_eq]
+    exact (pm_fold cfg P u num (lower n) (mname_cases (H.wf _ hn)) (H.wf _ hP) hkn).symm
+  -- (b) the state match is kept on both sides
+  have keepS : ∀ n, AOpt.mExplicit n ∈ r → isPM (protoOf cfg r) (.mExplicit n) = false →
+      n = s "state" ∧ mDrop (pairsOf (userOpts r) []) = false ∧ mDrop (pairsOf (kernelOpts cfg r) []) = false := by
+    intro n hn hpm
+    have hs : n = s "state" := by
+      rcases H.mOK n hn with h | h
+      · exact h
+      · simp [isPM, h] at hpm
+    subst hs
+    have hmU : getA kM (pairsOf (userOpts r) []) = some (s "state") := (LU kM _).mpr ⟨_, hn, by
+      simp only [AOpt.user]; rw [pkv_plain _ _ _ (by decide), value_no, join1]; rfl⟩
+    have hmK : getA kM (pairsOf (kernelOpts cfg r) []) = some (s "state") := (LK kM _).mpr (Or.inl ⟨_, hn, hpm, by
+      simp only [AOpt.kernel]; rw [pkv_plain _ _ _ (by decide), value_no, join1]; decide⟩)
+    refine ⟨rfl, ?_, ?_⟩
+    · unfold mDrop; rw [hmU]; exact pU
+    · unfold mDrop; rw [hmK]; exact pK
+  -- (c) the protocol match the kernel prints is dropped
+  have dropK : ∀ p, protoOf cfg r = some p → r.any (inPG (protoOf cfg r)) = true →
+      mDrop (pairsOf (kernelOpts cfg r) []) = true := by
+    intro p hp hany
+    obtain ⟨P, u, num, hP, hkn⟩ := protoOf_mem cfg r p hp
+    have hm : getA kM (pairsOf (kernelOpts cfg r) []) = some p := (LK kM p).mpr (Or.inr ⟨p, hp, hany, rfl⟩)
+    have hpp : getA kP (pairsOf (kernelOpts cfg r) []) = some p := (LK kP p).mpr (Or.inl ⟨_, hP, rfl, by
+      simp only [AOpt.kernel]; rw [pkv_plain _ _ _ (by decide), value_neg, hkn]; rfl⟩)
+    unfold mDrop
+    rw [hm, hpp]
+    exact equalFold_self p
+  -- the normal forms have the same entries
+  intro k'
+  apply Option.ext
+  intro v'
+  rw [normalize_entries _ (Or.inr sideK), normalize_entries _ H.markOnce]
+  constructor
+  · rintro ⟨k, v, hg, hn⟩
+    rcases (LK k v).mp hg with ⟨a, ha, hpm, h⟩ | ⟨p, hp, hany, h⟩
+    · by_cases hm : ∃ n, a = .mExplicit n
+      · obtain ⟨n, e⟩ := hm
+        subst e
+        obtain ⟨hs, hU, hK⟩ := keepS n ha hpm
+        subst hs
+        refine ⟨kM, s "state", (LU kM _).mpr ⟨_, ha, by
+          simp only [AOpt.user]; rw [pkv_plain _ _ _ (by decide), value_no, join1]; rfl⟩, ?_⟩
+        have hkv : (k, v) = (kM, s "state") := by
+          rw [← h]; simp only [AOpt.kernel]; rw [pkv_plain _ _ _ (by decide), value_no, join1]; decide
+        rw [hU, ← hK, ← hkv]; exact hn
+      · refine ⟨(pkv a.user).1, (pkv a.user).2, (LU _ _).mpr ⟨a, ha, rfl⟩, ?_⟩
+        have := opt_roundtrip cfg a (H.wf a ha) (fun n e => hm ⟨n, e⟩)
+          (mDrop (pairsOf (userOpts r) [])) (mDrop (pairsOf (kernelOpts cfg r) []))
+        rw [this, h]; exact hn
+    · exfalso
+      rw [dropK p hp hany, ← h] at hn
+      simp [nEntry] at hn
+  · rintro ⟨k, v, hg, hn⟩
+    obtain ⟨a, ha, h⟩ := (LU k v).mp hg
+    by_cases hm : ∃ n, a = .mExplicit n
+    · obtain ⟨n, e⟩ := hm
+      subst e
+      have hkv : (k, v) = (kM, n) := by
+        rw [← h]; simp only [AOpt.user]; rw [pkv_plain _ _ _ (by decide), value_no, join1]; rfl
+      cases hpm : isPM (protoOf cfg r) (.mExplicit n) with
+      | true =>
+        exfalso
+        rw [dropU n ha hpm, hkv] at hn
+        simp [nEntry] at hn
+      | false =>
+        obtain ⟨hs, hU, hK⟩ := keepS n ha hpm
+        subst hs
+        refine ⟨kM, s "state", (LK kM _).mpr (Or.inl ⟨_, ha, hpm, by
+          simp only [AOpt.kernel]; rw [pkv_plain _ _ _ (by decide), value_no, join1]; decide⟩), ?_⟩
+        rw [hK, ← hU, ← hkv]; exact hn
+    · have hpm : isPM (protoOf cfg r) a = false := by
+        cases a <;> first | rfl | exact absurd ⟨_, rfl⟩ hm
+      refine ⟨(pkv (a.kernel cfg)).1, (pkv (a.kernel cfg)).2, (LK _ _).mpr (Or.inl ⟨a, ha, hpm, rfl⟩), ?_⟩
+      have := opt_roundtrip cfg a (H.wf a ha) (fun n e => hm ⟨n, e⟩)
+        (mDrop (pairsOf (userOpts r) [])) (mDrop (pairsOf (kernelOpts cfg r) []))
+      rw [← this, h]; exact hn
 
 end NA.C05
